@@ -72,7 +72,7 @@ Lemma xstep_label m w k c rest : label_tok k -> ty c = tt_ColonToken ->
   parse_xstmt (S m) w (k :: c :: rest) = ('(s, r') <~ parse_xstmt m w rest ;; Ok (XLabel (data k) s, skip_semi false r')).
 Proof.
   intros [Hi [Hl Hk]] Ec. cbn [parse_xstmt].
-  assert (K : forall t, In t [tt_OpenBraceToken; tt_VarToken; tt_IfToken; tt_WhileToken; tt_ForToken; tt_DoToken; tt_DebuggerToken; tt_WithToken; tt_TryToken; tt_ThrowToken; tt_BreakToken; tt_ContinueToken] ->
+  assert (K : forall t, In t [tt_OpenBraceToken; tt_VarToken; tt_IfToken; tt_WhileToken; tt_ForToken; tt_DoToken; tt_DebuggerToken; tt_WithToken; tt_TryToken; tt_SwitchToken; tt_ThrowToken; tt_BreakToken; tt_ContinueToken] ->
               (ty k =? t) = false).
   { intros t Hin. apply Z.eqb_neq. intros E. rewrite E in Hk. cbn [In] in Hin.
     repeat (destruct Hin as [Hin|Hin]; [subst t; vm_compute in Hk; discriminate|]). contradiction. }
@@ -85,7 +85,7 @@ Lemma xstep_base m w ts s rest : ts <> [] ->
   parse_xstmt (S m) w ts = Ok (inj s, rest).
 Proof.
   intros Hne Hs Hnl. destruct ts as [|k r]; [contradiction|].
-  assert (K : forall t, In t [tt_OpenBraceToken; tt_VarToken; tt_IfToken; tt_WhileToken; tt_ForToken; tt_DoToken; tt_DebuggerToken; tt_WithToken; tt_TryToken; tt_ThrowToken; tt_BreakToken; tt_ContinueToken] ->
+  assert (K : forall t, In t [tt_OpenBraceToken; tt_VarToken; tt_IfToken; tt_WhileToken; tt_ForToken; tt_DoToken; tt_DebuggerToken; tt_WithToken; tt_TryToken; tt_SwitchToken; tt_ThrowToken; tt_BreakToken; tt_ContinueToken] ->
               (ty k =? t) = false).
   { intros t Hin. apply Z.eqb_neq. intros E. cbn [parse_stmt] in Hs. rewrite E in Hs. cbn [In] in Hin.
     repeat (destruct Hin as [Hin|Hin]; [subst t; vm_compute in Hs; discriminate|]). contradiction. }
